@@ -261,6 +261,17 @@ var intOps = []string{"delete", "recreate-unowned", "recreate-foreign", "transfe
 // PropC02: only objects the parent controls are ever modified or deleted.
 func PropC02(c *vs.Case, f Factory, kind string) error {
 	scn := GenScn(c, GenOpts{Kind: kind, AllowRolling: true, AllowSSA: true, AllowFinalize: false})
+	// hooks that put owner references of their own on a desired child (a plain owner, or - wrongly - a controller)
+	for i := range scn.Prog.Children {
+		switch c.Weighted(8, 1, 1) {
+		case 1:
+			scn.Prog.Children[i].OwnerRefs = []map[string]any{{"apiVersion": "v1", "kind": "ConfigMap", "name": "co-owner", "uid": "uid-co-owner"}}
+			c.Class("desired-carries-plain-owner")
+		case 2:
+			scn.Prog.Children[i].OwnerRefs = []map[string]any{{"apiVersion": "ex.io/v1", "kind": "Thing", "name": "someone", "uid": "uid-foreign", "controller": true, "blockOwnerDeletion": true}}
+			c.Class("desired-carries-foreign-controller")
+		}
+	}
 	env, err := NewEnv(scn, f)
 	if err != nil {
 		return fmt.Errorf("harness: %v", err)
